@@ -349,6 +349,34 @@ theorem od_lastDay (x : Int) (hx : OracleDate.isValidDate x) : OracleDate.isVali
   C16.fromTimestamp_valid _ (ts_lastDay x hx.1)
 
 
+/-! ### the `now` constructors and time-of-day → timestamp conversions, under ANY clock (clock fields as unsigned) -/
+
+theorem date_now (c : Clock) (v : Int) (hm : 0 ≤ c.month) (hd : 0 ≤ c.day) (h : Date.now c = .ok v) : isValidDate v :=
+  date_tryFromYmd c.year c.month c.day v hm hd h
+
+theorem ts_now (c : Clock) (v : Int) (hm : 0 ≤ c.month) (hd : 0 ≤ c.day) (hh : 0 ≤ c.hour) (hmi : 0 ≤ c.minute)
+    (hs : 0 ≤ c.second) (hu : 0 ≤ c.usec) (h : Timestamp.now c = .ok v) : isValidTimestamp v := by
+  unfold Timestamp.now at h
+  cases hd' : Date.tryFromYmd c.year c.month c.day with
+  | error e => simp [hd', bind, Except.bind] at h
+  | ok d =>
+    cases ht : Time.tryFromHms c.hour c.minute c.second c.usec with
+    | error e => simp [hd', ht, bind, Except.bind] at h
+    | ok t =>
+      simp [hd', ht, bind, Except.bind, pure, Except.pure] at h
+      subst h
+      exact ts_new d t (date_tryFromYmd _ _ _ d hm hd hd') (time_tryFromHms _ _ _ _ t hh hmi hs hu ht)
+
+theorem ts_fromTime (t : Int) (c : Clock) (v : Int) (ht : isValidTime t) (hm : 0 ≤ c.month) (hd : 0 ≤ c.day)
+    (h : Timestamp.fromTime t c = .ok v) : isValidTimestamp v := by
+  unfold Timestamp.fromTime at h
+  cases hd' : Date.tryFromYmd c.year c.month c.day with
+  | error e => simp [hd', bind, Except.bind] at h
+  | ok d =>
+    simp [hd', bind, Except.bind, pure, Except.pure] at h
+    subst h
+    exact ts_new d t (date_tryFromYmd _ _ _ d hm hd hd') ht
+
 /-- Out-of-range results are errors, never wrapped or clamped: the exact-result theorems of C08 say that an
     operation returns `ok` only with the exact mathematical result. E.g. one day past the maximum: -/
 example : Date.addDays 2932896 1 = .error .DateOutOfRange ∧ Date.subDays (-719162) 1 = .error .DateOutOfRange ∧
